@@ -8,13 +8,20 @@
 (* Load (LoadSolver / dill.loads) or DeepCopy (copy.deepcopy).             *)
 (*                                                                         *)
 (* One action per public call:                                             *)
-(*   Step(i)            solver.Step(): bootstrap (re-decorate the          *)
-(*                      objective if the solver is not `live`), one        *)
-(*                      iteration, periodic dump, stop check, Finalize     *)
-(*                      and forced dump at a stop                          *)
+(*   solver.Step() is three critical sections, each an action; `busy`      *)
+(*   names the instance that is inside Step() (nothing else can run then): *)
+(*   Iterate(i)         bootstrap (re-decorate the objective if the solver *)
+(*                      is not `live`), one iteration, and the periodic    *)
+(*                      SetSaveFrequency dump (PeriodicDump) that _Step    *)
+(*                      writes once the iteration is complete              *)
+(*   Continue(i)        post-check: no stop condition holds; Step returns  *)
+(*   Finalize(i)        post-check: a stop condition holds -> Finalize():  *)
+(*                      the `live` flag is cleared, Powell flushes its     *)
+(*                      pending step-monitor record (and dumps again)      *)
+(*   ForcedDump(i)      __save_state(force=True): the registered restart   *)
+(*                      file is rewritten with the FINALIZED solver; Step  *)
+(*                      returns the stop message                           *)
 (*   Save(i, slot)      SaveSolver(file) (slot "F") / dill.dumps ("D")     *)
-(*   PeriodicDump       the SetSaveFrequency dump, part of Step (it is     *)
-(*                      written by _Step after the iteration is complete)  *)
 (*   Load(slot, j)      LoadSolver(file) / dill.loads  -> new instance j   *)
 (*   DeepCopy(i, j)     copy.deepcopy                  -> new instance j   *)
 (*   RestoreRng(j)      the harness installs the generator state that was  *)
@@ -26,8 +33,9 @@
 (*   gens    generation counter (-1 = never stepped)                       *)
 (*   pos     trajectory position: the free (Herbrand) interpretation of    *)
 (*           "population, energies, best, histories, monitor contents":    *)
-(*           the sequence of <<draw, internals-used, perturbed>> of all    *)
-(*           iterations so far.  An iteration is a deterministic function  *)
+(*           the sequence of <<draw, internals-used, re-clipped, stopped>>  *)
+(*           of all iterations so far (stopped: the run was finalized at   *)
+(*           that generation).  An iteration is a deterministic function  *)
 (*           of (pos, generator state, internal state, configuration), so  *)
 (*           two solvers hold the same concrete data if (not only if)      *)
 (*           their pos are equal.                                          *)
@@ -37,6 +45,9 @@
 (*   fc      address of the counter cell `evaluations` reads (_fcalls)     *)
 (*   wfc     address of the cell the decorated objective increments        *)
 (*   nsm,nem lengths of the step / evaluation monitor                      *)
+(*   pend    Powell only: the record of the last iteration is not yet in   *)
+(*           the step monitor (it is flushed by the next iteration or by   *)
+(*           Finalize); nsm + pend = gens + 1                              *)
 (*   cfg     configuration record [id, sf, em, lim, le, rg, dk]            *)
 (*           sf save frequency (0 = off), em evaluation monitor installed, *)
 (*           lim generation limit, le evaluation limit (None = -1),        *)
@@ -47,6 +58,11 @@
 (*           the instance's own objective since creation                   *)
 (*   origin, born, rngAt  GHOSTS: how / at which generation the instance   *)
 (*           was created; generator label saved with its snapshot          *)
+(*   cfglog  GHOST: the re-configuration calls made so far, each with the  *)
+(*           generation at which it was made                               *)
+(*   forcedoff, dev  GHOSTS: deepcopy switched a live solver off / the     *)
+(*           re-decoration this forces has re-clipped the population (the  *)
+(*           one place where a copy legitimately leaves the trajectory)    *)
 (* cell      heap of counter cells (sharing is expressed by equal          *)
 (*           addresses); ncell = next unused address                       *)
 (* store     slot -> snapshot ("F" explicit restart file, "P" file of the  *)
@@ -63,9 +79,12 @@
 (*                                                                         *)
 (* Properties                                                              *)
 (*   ResumeEquivalence  a restored / copied instance that has consumed the *)
-(*       same inputs (generator labels, no re-clipping perturbation) under *)
-(*       the same configuration as an uninterrupted instance is, at equal  *)
-(*       generation, equal to it in the WHOLE abstract state               *)
+(*       same generator labels under the same configuration as an          *)
+(*       uninterrupted instance is, at equal generation, equal to it in    *)
+(*       the WHOLE abstract state -- also when the snapshot was taken AT   *)
+(*       THE STOP of a run and both are re-configured (limit raised) and   *)
+(*       continued: whether the continuation re-decorates (and, under      *)
+(*       strict ranges, re-clips) is part of the state that must agree     *)
 (*   Independence       [][acting' # j => UNCHANGED State(j)]_vars,        *)
 (*       including the dereferenced counter cell                           *)
 (*   CopyCounts         evaluations(i) = base(i) + own(i) for every i      *)
@@ -83,6 +102,10 @@
 (*   dump_midstep           the periodic dump is written before the        *)
 (*                          iteration has stored intern (mystic before     *)
 (*                          repo commit 778ef22)                           *)
+(*   forced_dump_skipped    the forced dump at the stop is skipped when    *)
+(*                          the periodic dump already fired at this        *)
+(*                          generation: the file then holds the solver as  *)
+(*                          it was BEFORE Finalize (still live)            *)
 (***************************************************************************)
 EXTENDS Integers, Sequences, FiniteSets, TLC
 
@@ -99,20 +122,21 @@ None == -1
 Ids == 1..MaxInst
 Slots == {"F", "P", "D", "R"}
 Designs == {"ok", "snap_omits_internals", "load_resets_counter", "load_drops_stepmon",
-            "copy_shares_counter", "copy_detached_counter", "dump_midstep"}
+            "copy_shares_counter", "copy_detached_counter", "dump_midstep", "forced_dump_skipped"}
 ASSUME Design \in Designs
 
-VARIABLES kind, inst, cell, ncell, store, rngctx, acting, nops
-vars == <<kind, inst, cell, ncell, store, rngctx, acting, nops>>
+VARIABLES kind, inst, cell, ncell, store, rngctx, acting, nops, busy
+vars == <<kind, inst, cell, ncell, store, rngctx, acting, nops, busy>>
 
 NoCfg == [id |-> 0, sf |-> 0, em |-> FALSE, lim |-> None, le |-> None, rg |-> FALSE, dk |-> FALSE]
 
 Dead == [alive |-> FALSE, gens |-> -1, pos |-> << >>, intern |-> 0, fc |-> 1, wfc |-> 1, nsm |-> 0, nem |-> 0,
-         cfg |-> NoCfg, file |-> "none", live |-> FALSE, base |-> 0, own |-> 0, origin |-> "none",
-         born |-> -1, rngAt |-> -1]
+         pend |-> FALSE, cfg |-> NoCfg, file |-> "none", live |-> FALSE, base |-> 0, own |-> 0,
+         origin |-> "none", born |-> -1, rngAt |-> -1, forcedoff |-> FALSE, dev |-> FALSE, cfglog |-> << >>]
 
 Empty == [full |-> FALSE, gens |-> -1, pos |-> << >>, intern |-> 0, fcalls |-> 0, nsm |-> 0, nem |-> 0,
-          cfg |-> NoCfg, file |-> "none", live |-> FALSE, rngAt |-> -1, by |-> 0]
+          pend |-> FALSE, cfg |-> NoCfg, file |-> "none", live |-> FALSE, rngAt |-> -1, by |-> 0,
+          forcedoff |-> FALSE, dev |-> FALSE, cfglog |-> << >>]
 
 Stochastic == kind \in {"DE", "DE2"}
 HasInternals == kind = "PW"
@@ -126,13 +150,17 @@ StoppedWith(s, c) == /\ s.gens >= 0
                      /\ \/ s.cfg.lim # None /\ s.gens >= s.cfg.lim
                         \/ s.cfg.le # None /\ Fcalls(s, c) >= s.cfg.le
 Stopped(i) == StoppedWith(inst[i], cell)
+Idle == busy = 0              \* nobody is inside Step(): the states a caller can observe
 
 (* the part of an instance the property speaks about *)
 Abs(s, c) == [gens |-> s.gens, pos |-> s.pos, intern |-> s.intern, fcalls |-> Fcalls(s, c),
               nsm |-> s.nsm, nem |-> s.nem, cfg |-> s.cfg]
 (* everything of instance j another instance could disturb *)
-State(j) == [abs |-> Abs(inst[j], cell), file |-> inst[j].file, live |-> inst[j].live, alive |-> inst[j].alive]
-(* what an iteration consumed from outside the solver *)
+State(j) == [abs |-> Abs(inst[j], cell), file |-> inst[j].file, live |-> inst[j].live, alive |-> inst[j].alive,
+             pend |-> inst[j].pend]
+(* what the iterations consumed from outside the solver: the generator labels *)
+Draws(s) == [n \in 1..Len(s.pos) |-> s.pos[n][1]]
+(* labels together with the re-clipping flags (used for the soundness of the labels only) *)
 Inputs(s) == [n \in 1..Len(s.pos) |-> <<s.pos[n][1], s.pos[n][3]>>]
 
 Fresh(origin, c, f, cl) ==
@@ -151,19 +179,23 @@ Init ==
   /\ rngctx = [i \in Ids |-> IF i <= 2 THEN 0 ELSE -1]     \* reference and original start from the same seed
   /\ acting = 0
   /\ nops = 0
+  /\ busy = 0
 
 (* the pickled attribute dictionary of s (counter by value), written by instance `by` under generator label r *)
 Snap(s, c, r, by) ==
   [full |-> TRUE, gens |-> s.gens, pos |-> s.pos,
    intern |-> IF Design = "snap_omits_internals" THEN 0 ELSE s.intern,
-   fcalls |-> Fcalls(s, c), nsm |-> s.nsm, nem |-> s.nem, cfg |-> s.cfg, file |-> s.file, live |-> s.live,
-   rngAt |-> r, by |-> by]
+   fcalls |-> Fcalls(s, c), nsm |-> s.nsm, nem |-> s.nem, pend |-> s.pend, cfg |-> s.cfg, file |-> s.file,
+   live |-> s.live, rngAt |-> r, by |-> by, forcedoff |-> s.forcedoff, dev |-> s.dev, cfglog |-> s.cfglog]
 
-(* the SetSaveFrequency dump and the forced dump at a stop: SaveSolver() into the registered file *)
+(* SaveSolver() into the registered file: the SetSaveFrequency dump and the forced dump at a stop *)
 PeriodicDump(st, s, c, r, by) == [st EXCEPT ![s.file] = Snap(s, c, r, by)]
+DumpDue(s) == s.file # "none" /\ s.cfg.sf > 0 /\ s.gens % s.cfg.sf = 0
 
-Step(i) ==
+(* ---- solver.Step(), first critical section: bootstrap, one iteration, periodic dump ---- *)
+Iterate(i) ==
   LET s == inst[i] IN
+  /\ Idle
   /\ s.alive /\ s.gens < MaxGen /\ ~Stopped(i)
   /\ Stochastic => rngctx[i] >= 0
   /\ ncell < MaxCells
@@ -180,27 +212,60 @@ Step(i) ==
          wcell == IF redeco THEN ncell ELSE s.wfc
          c1 == IF redeco THEN [cell EXCEPT ![ncell] = cell[s.fc]] ELSE cell
          c2 == [c1 EXCEPT ![wcell] = @ + k]
-         post0 == [s EXCEPT !.gens = g, !.pos = Append(@, <<d, s.intern, IF perturb THEN 1 ELSE 0>>),
-                            !.intern = HonestIntern(g), !.fc = fcell, !.wfc = wcell, !.nsm = @ + 1,
-                            !.nem = IF s.cfg.em THEN @ + k ELSE @, !.own = @ + k, !.live = TRUE]
-         stop == StoppedWith(post0, c2)
-         post == [post0 EXCEPT !.live = ~stop]                       \* Finalize
-         periodic == s.file # "none" /\ s.cfg.sf > 0 /\ g % s.cfg.sf = 0
-         forced == s.file # "none" /\ stop
-         midstep == [post0 EXCEPT !.intern = s.intern]               \* as-is: written before intern is stored
-         st1 == IF periodic
-                THEN PeriodicDump(store, IF Design = "dump_midstep" THEN midstep ELSE post0, c2, r2, i)
-                ELSE store
-         st2 == IF forced THEN PeriodicDump(st1, post, c2, r2, i) ELSE st1
+         post == [s EXCEPT !.gens = g, !.pos = Append(@, <<d, s.intern, IF perturb THEN 1 ELSE 0, 0>>),
+                           !.intern = HonestIntern(g), !.fc = fcell, !.wfc = wcell,
+                           (* Powell logs the PREVIOUS iteration's record now and keeps the new one pending *)
+                           !.nsm = IF HasInternals THEN (IF g = 0 \/ s.pend THEN @ + 1 ELSE @) ELSE @ + 1,
+                           !.pend = HasInternals /\ g >= 1,
+                           !.nem = IF s.cfg.em THEN @ + k ELSE @, !.own = @ + k, !.live = TRUE,
+                           (* the one legitimate departure: the re-decoration deepcopy forces re-clips *)
+                           !.dev = @ \/ (perturb /\ s.forcedoff), !.forcedoff = FALSE]
+         midstep == [post EXCEPT !.intern = s.intern]               \* as-is: written before intern is stored
      IN /\ inst' = [inst EXCEPT ![i] = post]
         /\ cell' = c2
         /\ ncell' = IF redeco THEN ncell + 1 ELSE ncell
         /\ rngctx' = [rngctx EXCEPT ![i] = r2]
-        /\ store' = st2
+        /\ store' = IF DumpDue(post)
+                    THEN PeriodicDump(store, IF Design = "dump_midstep" THEN midstep ELSE post, c2, r2, i)
+                    ELSE store
+        /\ busy' = i
         /\ acting' = i
         /\ UNCHANGED <<kind, nops>>
 
-Op == nops < MaxOps /\ nops' = nops + 1
+(* ---- second critical section, no stop condition holds: Step() returns None ---- *)
+Continue(i) ==
+  /\ busy = i /\ ~Stopped(i)
+  /\ busy' = 0 /\ acting' = i
+  /\ UNCHANGED <<kind, inst, cell, ncell, store, rngctx, nops>>
+
+(* ---- second critical section, a stop condition holds: Finalize() ---- *)
+Finalize(i) ==
+  LET s == inst[i]
+      (* the run is marked as finalized at this generation (Powell: what the step monitor holds from here on depends *)
+      (* on it; all kinds: the next Step re-decorates) and Powell flushes its pending record ...                     *)
+      fin == [s EXCEPT !.nsm = IF s.pend THEN @ + 1 ELSE @, !.pend = FALSE,
+                       !.pos = [@ EXCEPT ![Len(@)] = <<@[1], @[2], @[3], 1>>]]
+      off == [fin EXCEPT !.live = FALSE]
+  IN /\ busy = i /\ Stopped(i) /\ s.live
+     /\ inst' = [inst EXCEPT ![i] = off]
+     (* ... and, having logged a record, checks the save frequency again -- still marked live at that moment *)
+     /\ store' = IF s.pend /\ DumpDue(fin) THEN PeriodicDump(store, fin, cell, rngctx[i], i) ELSE store
+     /\ acting' = i
+     /\ UNCHANGED <<kind, cell, ncell, rngctx, nops, busy>>
+
+(* ---- third critical section: __save_state(force=True), Step() returns the stop message ---- *)
+ForcedDump(i) ==
+  LET s == inst[i]
+      skipped == Design = "forced_dump_skipped" /\ s.cfg.sf > 0 /\ s.gens % s.cfg.sf = 0
+  IN /\ busy = i /\ Stopped(i) /\ ~s.live
+     /\ store' = IF s.file # "none" /\ ~skipped THEN PeriodicDump(store, s, cell, rngctx[i], i) ELSE store
+     /\ busy' = 0 /\ acting' = i
+     /\ UNCHANGED <<kind, inst, cell, ncell, rngctx, nops>>
+
+(* the public call as a whole *)
+StepPart(i) == Iterate(i) \/ Continue(i) \/ Finalize(i) \/ ForcedDump(i)
+
+Op == Idle /\ nops < MaxOps /\ nops' = nops + 1 /\ UNCHANGED busy
 
 (* SaveSolver(file) registers the file, then pickles; dill.dumps pickles only *)
 Save(i, slot) ==
@@ -225,8 +290,10 @@ Load(slot, j) ==
                       [alive |-> TRUE, gens |-> sn.gens, pos |-> sn.pos, intern |-> sn.intern,
                        fc |-> ncell, wfc |-> ncell,
                        nsm |-> IF Design = "load_drops_stepmon" THEN 0 ELSE sn.nsm, nem |-> sn.nem,
+                       pend |-> sn.pend,
                        cfg |-> sn.cfg, file |-> IF slot = "D" THEN sn.file ELSE slot, live |-> sn.live,
-                       base |-> fcv, own |-> 0, origin |-> "load", born |-> sn.gens, rngAt |-> sn.rngAt]]
+                       base |-> fcv, own |-> 0, origin |-> "load", born |-> sn.gens, rngAt |-> sn.rngAt,
+                       forcedoff |-> sn.forcedoff, dev |-> sn.dev, cfglog |-> sn.cfglog]]
         /\ cell' = [cell EXCEPT ![ncell] = fcv]
   /\ ncell' = ncell + 1
   /\ rngctx' = [rngctx EXCEPT ![j] = -1]          \* nothing installed yet for j
@@ -245,6 +312,7 @@ DeepCopy(i, j) ==
                       [s EXCEPT !.fc = IF shares THEN s.fc ELSE ncell,
                                 !.wfc = IF shares THEN s.wfc ELSE IF detached /\ s.live THEN ncell + 1 ELSE ncell,
                                 !.live = IF shares \/ detached THEN s.live ELSE FALSE,
+                                !.forcedoff = IF shares \/ detached THEN s.forcedoff ELSE (s.live \/ s.forcedoff),
                                 !.base = Fcalls(s, cell), !.own = 0, !.origin = "copy", !.born = s.gens,
                                 !.rngAt = rngctx[i]]]
         /\ cell' = IF shares THEN cell
@@ -270,24 +338,31 @@ Scramble(j) ==
   /\ acting' = 0
   /\ UNCHANGED <<kind, inst, cell, ncell, store>>
 
-(* SetEvaluationLimits / SetSaveFrequency(sf, file "P") on instance i; monitors and ranges are fixed once it has run *)
+(* SetEvaluationLimits / SetSaveFrequency(sf, file "P") on instance i; monitors and ranges are fixed once it has run. *)
+(* Raising the limit of a STOPPED solver is how a finished run is continued (the solver stays not live until its     *)
+(* next Step re-decorates the objective).                                                                             *)
 SetCfg(i, c) ==
   /\ Op
   /\ inst[i].alive /\ c # inst[i].cfg
   /\ c.dk => kind \in {"DE", "DE2"}
   /\ inst[i].gens >= 0 => (c.em = inst[i].cfg.em /\ c.rg = inst[i].cfg.rg)
   /\ inst' = [inst EXCEPT ![i].cfg = c,
+                          ![i].cfglog = Append(@, <<inst[i].gens, c>>),
                           ![i].file = IF c.sf > 0 /\ c.sf # inst[i].cfg.sf THEN (IF i = 1 THEN "R" ELSE "P") ELSE @]
   /\ acting' = i
   /\ UNCHANGED <<kind, cell, ncell, store, rngctx>>
 
+(* the raised limits with which a stopped run is continued *)
+Raised(c) == [c EXCEPT !.lim = MaxGen + 10, !.le = None]
+
 Next ==
-  \/ \E i \in Ids : Step(i)
+  \/ \E i \in Ids : StepPart(i)
   \/ \E i \in Ids \ {1}, sl \in {"F", "D"} : Save(i, sl)
   \/ \E j \in Ids, sl \in {"F", "P", "D"} : Load(sl, j)
   \/ \E i \in Ids \ {1}, j \in Ids : DeepCopy(i, j)
   \/ \E j \in Ids : RestoreRng(j) \/ Scramble(j)
   \/ \E i \in Ids \ {1}, c \in Settings : SetCfg(i, c)
+  \/ \E i \in Ids : Stopped(i) /\ SetCfg(i, Raised(inst[i].cfg))     \* continue a finished run
 
 Spec == Init /\ [][Next]_vars
 
@@ -295,11 +370,17 @@ Spec == Init /\ [][Next]_vars
 Uninterrupted(r) == inst[r].alive /\ inst[r].origin \in {"ref", "orig"}
 Resumed(i) == inst[i].alive /\ inst[i].origin \in {"load", "copy"}
 
+(* same generation, same configuration HISTORY (which re-configuration call was made at which generation: a    *)
+(* limit that was in force for a while makes a run stop, finalize and re-decorate), same generator labels       *)
+(* consumed; the single waiver is a deep copy whose forced re-decoration re-clipped the population (dev)        *)
 SamePremise(i, r) == /\ inst[i].gens = inst[r].gens
                      /\ inst[i].cfg = inst[r].cfg
-                     /\ Inputs(inst[i]) = Inputs(inst[r])
+                     /\ inst[i].cfglog = inst[r].cfglog
+                     /\ Draws(inst[i]) = Draws(inst[r])
+                     /\ ~inst[i].dev
 
 ResumeEquivalence ==
+  Idle =>
   \A i \in Ids, r \in Ids :
      (Resumed(i) /\ Uninterrupted(r) /\ SamePremise(i, r)) => Abs(inst[i], cell) = Abs(inst[r], cell)
 
@@ -321,17 +402,19 @@ RngLabelsFunctional ==
 
 TypeOK ==
   /\ kind \in Kinds
+  /\ busy \in 0..MaxInst
   /\ \A i \in Ids : inst[i].gens \in -1..MaxGen /\ inst[i].fc \in 1..MaxCells /\ inst[i].wfc \in 1..MaxCells
-  /\ \A i \in Ids : inst[i].alive => (inst[i].nsm = inst[i].gens + 1 \/ Design = "load_drops_stepmon")
+  /\ \A i \in Ids : inst[i].alive =>
+        (inst[i].nsm + (IF inst[i].pend THEN 1 ELSE 0) = inst[i].gens + 1 \/ Design = "load_drops_stepmon")
   /\ \A i \in Ids : (inst[i].alive /\ inst[i].cfg.sf > 0) => inst[i].file # "none"
 
 (* ------------------------------------------------------------------ vacuity witnesses (must be VIOLATED) *)
 (* a restored instance has continued past its checkpoint and is compared with an uninterrupted one *)
 NeverResumedCompared ==
-  ~ \E i \in Ids, r \in Ids : Resumed(i) /\ inst[i].origin = "load" /\ Uninterrupted(r) /\ SamePremise(i, r)
+  ~ \E i \in Ids, r \in Ids : Idle /\ Resumed(i) /\ inst[i].origin = "load" /\ Uninterrupted(r) /\ SamePremise(i, r)
                                /\ inst[i].gens >= inst[i].born + 2
 NeverCopyCompared ==
-  ~ \E i \in Ids, r \in Ids : Resumed(i) /\ inst[i].origin = "copy" /\ Uninterrupted(r) /\ SamePremise(i, r)
+  ~ \E i \in Ids, r \in Ids : Idle /\ Resumed(i) /\ inst[i].origin = "copy" /\ Uninterrupted(r) /\ SamePremise(i, r)
                                /\ inst[i].gens >= inst[i].born + 1
 (* the periodic dump is restored after the original has moved on *)
 NeverPeriodicRestore ==
@@ -339,11 +422,11 @@ NeverPeriodicRestore ==
                     /\ inst[i].gens > inst[i].born
 (* a restored instance runs with a generator state that was not restored: nothing is claimed *)
 NeverUnrestored ==
-  ~ \E i \in Ids : Resumed(i) /\ inst[i].gens > inst[i].born /\ ~ SamePremise(i, 1) /\ inst[1].gens = inst[i].gens
-                    /\ inst[i].cfg = inst[1].cfg
-(* a copy's first step is perturbed by re-clipping under strict ranges *)
+  ~ \E i \in Ids : Idle /\ Resumed(i) /\ inst[i].gens > inst[i].born /\ ~ SamePremise(i, 1)
+                    /\ inst[1].gens = inst[i].gens /\ inst[i].cfg = inst[1].cfg
+(* a copy's first step is perturbed by re-clipping under strict ranges (the waiver is really used) *)
 NeverPerturbed ==
-  ~ \E i \in Ids : inst[i].alive /\ \E n \in 1..Len(inst[i].pos) : inst[i].pos[n][3] = 1
+  ~ \E i \in Ids : inst[i].alive /\ inst[i].dev
 (* a run stops at a limit and the restart file is rewritten by the forced dump *)
 NeverForcedDump ==
   ~ \E sl \in Slots : store[sl].full /\ ~store[sl].live /\ store[sl].gens >= 1
@@ -351,4 +434,17 @@ NeverForcedDump ==
 NeverTwoFromOne ==
   ~ \E i \in Ids, j \in Ids : i < j /\ Resumed(i) /\ Resumed(j) /\ inst[i].born = inst[j].born
                                /\ inst[i].gens > inst[i].born /\ inst[j].gens > inst[j].born
+(* THE STOP: the restart file written at the stop of the original is restored, original and restored instance get *)
+(* the same raised limit, both continue under strict ranges (re-decoration re-clips) and are compared              *)
+NeverStopRestoredContinued ==
+  ~ \E i \in Ids : /\ Idle /\ Resumed(i) /\ inst[i].origin = "load" /\ SamePremise(i, 2)
+                   /\ inst[i].gens > inst[i].born /\ inst[i].born >= 1
+                   /\ inst[i].pos[inst[i].born + 2][3] = 1          \* its first step after the restore re-clipped
+                   /\ inst[i].cfg.sf > 0 /\ inst[i].born % inst[i].cfg.sf = 0
+(* same, with a save frequency that does not divide the stop generation *)
+NeverStopRestoredNonDividing ==
+  ~ \E i \in Ids : /\ Idle /\ Resumed(i) /\ inst[i].origin = "load" /\ SamePremise(i, 2)
+                   /\ inst[i].gens > inst[i].born /\ inst[i].born >= 1
+                   /\ inst[i].pos[inst[i].born + 2][3] = 1
+                   /\ inst[i].cfg.sf > 0 /\ inst[i].born % inst[i].cfg.sf # 0
 =============================================================================
